@@ -15,6 +15,8 @@ import (
 	"github.com/nspcc-dev/neo-go/pkg/core"
 	"github.com/nspcc-dev/neo-go/pkg/core/interop"
 	"github.com/nspcc-dev/neo-go/pkg/core/state"
+	"github.com/nspcc-dev/neo-go/pkg/core/storage"
+	"github.com/nspcc-dev/neo-go/pkg/core/storage/dbconfig"
 	"github.com/nspcc-dev/neo-go/pkg/core/transaction"
 	"github.com/nspcc-dev/neo-go/pkg/crypto/keys"
 	"github.com/nspcc-dev/neo-go/pkg/io"
@@ -73,10 +75,23 @@ type c16Chain struct {
 }
 
 // c16NewChain: single-validator in-memory chain with every known hard-fork enabled from genesis.
-func c16NewChain() *c16Chain {
+func c16NewChain() *c16Chain { return c16NewChainOn(nil) }
+
+// c16NewChainAt opens (or creates) a chain over a LevelDB directory: closing it and calling c16NewChainAt again on
+// the same directory is a node restart (everything, contract states included, is rebuilt from the stored form).
+func c16NewChainAt(dir string) (*c16Chain, error) {
+	st, err := storage.NewLevelDBStore(dbconfig.LevelDBOptions{DataDirectoryPath: dir})
+	if err != nil {
+		return nil, err
+	}
+	return c16NewChainOn(st), nil
+}
+
+func c16NewChainOn(st storage.Store) *c16Chain {
 	t := &c16T{}
 	bc, acc := chain.NewSingleWithOptions(t, &chain.Options{
 		Logger: zap.NewNop(),
+		Store:  st,
 		BlockchainConfigHook: func(c *config.Blockchain) {
 			c.Hardforks = map[string]uint32{}
 			for _, hf := range config.Hardforks {
@@ -89,7 +104,10 @@ func c16NewChain() *c16Chain {
 	return &c16Chain{t: t, bc: bc, e: e, owner: acc}
 }
 
-func (c *c16Chain) close() { c.t.done() }
+func (c *c16Chain) close() {
+	c.t.done()
+	c.t.cleanups = nil
+}
 
 // ---- hand-assembled contracts ----
 
